@@ -503,8 +503,8 @@ Section NoFuel.
       cbn [res] in *. intros E; destruct (F E) as [q Hn]; (split; [exact q|]); cbn [w]; trs; rewrite E2; cbn [nrun Nat.add]; exact Hn.
     Qed.
 
-    Lemma nf_cleanup_loop : forall fuel last s l,
-      src s = SBuf l -> length l < LF -> SI (ts s) -> cl_at fuel l (cleanup_loop crun fuel last s).
+    Lemma nf_cleanup_loop inner : forall fuel last s l,
+      src s = SBuf l -> length l < LF -> SI (ts s) -> cl_at fuel l (cleanup_loop crun inner fuel last s).
     Proof.
       induction fuel as [|f IH]; intros last s l Hs Hl Hsi; cbn [cleanup_loop].
       - unfold throw. split; [|split]; cbn [res post w].
@@ -521,13 +521,13 @@ Section NoFuel.
           destruct (Hcrun c Qc s' l Hs' Hl Hsi') as (F & (l1 & S1 & L1) & R2r).
           specialize (R2r Hsi').
           assert (Hl1 : length l1 < LF) by lia.
-          assert (K : forall last' s2, same_sc s2 (post (crun c s')) -> cl_at f l (cleanup_loop crun f last' s2)).
+          assert (K : forall last' s2, same_sc s2 (post (crun c s')) -> cl_at f l (cleanup_loop crun inner f last' s2)).
           { intros last' s2 [Es Ecl].
             assert (S1' : src s2 = SBuf l1) by (rewrite Es; exact S1).
             assert (Si' : SI (ts s2)) by (unfold SI; rewrite Ecl; exact R2r).
             destruct (IH last' s2 l1 S1' Hl1 Si') as (F2 & (l2 & S2 & L2) & Si2).
             split; [exact F2|split; [exists l2; split; [exact S2|lia]|exact Si2]]. }
-          assert (K0 : forall last', cl_at f l (cleanup_loop crun f last' (post (crun c s')))).
+          assert (K0 : forall last', cl_at f l (cleanup_loop crun inner f last' (post (crun c s')))).
           { intros last'. apply K. split; reflexivity. }
           assert (G : forall o2 : out (option exn),
                      (cl_at f l o2 \/
@@ -545,7 +545,10 @@ Section NoFuel.
           destruct (res (crun c s')) as [v|e] eqn:Er; [|destruct e as [m|m st|m st|]]; cbv beta iota zeta; cbn [res post w];
             (lazymatch goal with |- cl_at _ _ (mkOut (res ?o) _ _) => apply (G o) end).
           * left. apply K0.
-          * left. apply cl_pre; [apply quiet_dirty_if|]. apply cl_pre; [apply quiet_note_skip|]. apply K.
+          * left. destruct (inner && internal_msg m).
+            { apply cl_pre; [apply quiet_mark_dirty|]. apply K.
+              destruct (quiet_mark_dirty (post (crun c s'))) as (_ & _ & A). exact A. }
+            apply cl_pre; [apply quiet_dirty_if|]. apply cl_pre; [apply quiet_note_skip|]. apply K.
             destruct (quiet_dirty_if (internal_msg m) (post (crun c s'))) as (_ & _ & [A1 A2]).
             destruct (quiet_note_skip m (post ((if internal_msg m then mark_dirty else ret tt) (post (crun c s')))))
               as (_ & _ & [B1 B2]).
@@ -559,8 +562,8 @@ Section NoFuel.
     Lemma pre_res A (pre : M unit) (m : M A) st :
       quiet pre -> res (bind pre (fun _ => m) st) = res (m (post (pre st))).
     Proof. intros Hq. destruct (Hq st) as (E & _). unfold bind. rewrite E. reflexivity. Qed.
-    Lemma cleanup_loop_okl : forall fuel last s r,
-      last <> Some XFuel -> res (cleanup_loop crun fuel last s) = Ok r -> r <> Some XFuel.
+    Lemma cleanup_loop_okl inner : forall fuel last s r,
+      last <> Some XFuel -> res (cleanup_loop crun inner fuel last s) = Ok r -> r <> Some XFuel.
     Proof.
       induction fuel as [|f IH]; intros last s r Hlast H; cbn [cleanup_loop] in H; [discriminate|].
       unfold bind at 1 in H. destruct (pop_spec s) as [E|(id & c & rest & Ec & E)]; rewrite E in H; cbn [res post w] in H.
@@ -568,13 +571,15 @@ Section NoFuel.
       - unfold try_ in H. cbv zeta in H. cbn [res] in H.
         destruct (res (crun c _)) as [v|[m|m st|m st|]]; cbv beta iota zeta in H.
         + eapply IH; [|exact H]. exact Hlast.
-        + rewrite pre_res in H by apply quiet_dirty_if. rewrite pre_res in H by apply quiet_note_skip.
-          eapply IH; [|exact H]. exact Hlast.
+        + destruct (inner && internal_msg m).
+          * rewrite pre_res in H by apply quiet_mark_dirty. eapply IH; [|exact H]. discriminate.
+          * rewrite pre_res in H by apply quiet_dirty_if. rewrite pre_res in H by apply quiet_note_skip.
+            eapply IH; [|exact H]. exact Hlast.
         + eapply IH; [|exact H]. discriminate.
         + eapply IH; [|exact H]. discriminate.
         + discriminate.
     Qed.
-    Lemma cleanup_okl s r : res (cleanup LF crun s) = Ok r -> r <> Some XFuel.
+    Lemma cleanup_okl inner s r : res (cleanup LF crun inner s) = Ok r -> r <> Some XFuel.
     Proof.
       unfold cleanup. intros H.
       apply bind_ok in H. destruct H as [u [_ H]].
@@ -584,9 +589,9 @@ Section NoFuel.
       eapply cleanup_loop_okl; [|exact H1]. discriminate.
     Qed.
 
-    Lemma NF_cleanup_loop b last : NFb SI R2 b (cleanup_loop crun LF last).
+    Lemma NF_cleanup_loop inner b last : NFb SI R2 b (cleanup_loop crun inner LF last).
     Proof.
-      intros s l Hs Hl Hp. destruct (nf_cleanup_loop LF last s l Hs Hl Hp) as (F & Mn & Si).
+      intros s l Hs Hl Hp. destruct (nf_cleanup_loop inner LF last s l Hs Hl Hp) as (F & Mn & Si).
       split; [|split; [exact Mn|intros _; exact Si]].
       intros _ E. destruct (F E) as [q Hn]. split; [apply q; lia|]. destruct Hn; assumption.
     Qed.
@@ -594,7 +599,7 @@ Section NoFuel.
     Proof. ap NF_state. intros s. cbn. repeat split; discriminate. Qed.
     Lemma NF_end_cleanup b : NFb SI R2 b end_cleanup.
     Proof. ap NF_state. intros s. cbn. repeat split; discriminate. Qed.
-    Lemma NF_cleanup b : NFb SI R2 b (cleanup LF crun).
+    Lemma NF_cleanup inner b : NFb SI R2 b (cleanup LF crun inner).
     Proof.
       unfold cleanup. ap NF_bind; [apply NF_begin_cleanup|intros _].
       ap NF_bind; [apply NF_cleanup_loop|intros r].
@@ -614,9 +619,10 @@ Section NoFuel.
     Proof.
       intros Hr. unfold custom_handler.
       assert (H : NFb SI R2 b (
-                   c <- cleanup LF crun ;;
+                   c <- cleanup LF crun true ;;
                    t0 <- get_ts ;;
                    match c, r with
+                   | Some (XInvalid m), _ => match failed t0 with Some _ => throw (XInvalid m) | None => ret None end
                    | Some e, Err (XInvalid m) => _ <- (if internal_msg m then mark_dirty else ret tt) ;; throw e
                    | Some e, _ => throw e
                    | None, Ok v => ret (Some v)
@@ -629,7 +635,12 @@ Section NoFuel.
         { intros e ->. ap NF_throw. intros _ ->. apply Hc. reflexivity. }
         assert (Hr' : forall e, r = Err e -> NFb SI R2 b (@throw (option val) e)).
         { intros e ->. ap NF_throw. intros Hb ->. apply (Hr Hb). reflexivity. }
-        destruct c as [e|]; destruct r as [v|e']; auto.
+        assert (Hinv : forall m, c = Some (XInvalid m) ->
+                  NFb SI R2 b (match failed t0 with Some _ => @throw (option val) (XInvalid m) | None => ret None end)).
+        { intros m Ec. destruct (failed t0); [exact (Hth _ Ec)|nf]. }
+        destruct c as [e|]; [destruct e as [m'|m' st'|m' st'|]; [exact (Hinv m' eq_refl)| | |]|]; destruct r as [v|e']; auto.
+        - destruct e'; auto. ap NF_bind; [destruct (internal_msg m); nf|intros _; auto].
+        - destruct e'; auto. ap NF_bind; [destruct (internal_msg m); nf|intros _; auto].
         - destruct e'; auto. ap NF_bind; [destruct (internal_msg m); nf|intros _; auto].
         - nf.
         - destruct e'; auto. destruct (failed t0); auto. nf. }
@@ -767,7 +778,7 @@ Section NoFuel.
       intros Ec Hr. unfold check_handler. rewrite <- Ec.
       assert (H : NFb SI R2 b (
           _ <- (match r with Err (XInvalid m) => if internal_msg m then mark_dirty else ret tt | _ => ret tt end) ;;
-          c <- cleanup LF crun ;;
+          c <- cleanup LF crun false ;;
           t <- get_ts ;;
           let r' := match c with
                     | Some e => Err e
